@@ -135,6 +135,14 @@ MUTANTS = [
     ("C18", "cdf-unsorted", "typhon/retrieval/bmci/bmci.py", "        self.x_sorted_inds = np.argsort(self.x)", "        self.x_sorted_inds = np.arange(self.x.size)"),
     ("C18", "window-too-narrow", "typhon/retrieval/bmci/bmci.py", "        s_l = y_proj - np.sqrt(2.0 * x2_max / self.pc1_e)", "        s_l = y_proj + np.sqrt(2.0 * x2_max / self.pc1_e)"),
     ("C18", "std-no-weights", "typhon/retrieval/bmci/bmci.py", "                    (self.x[i_l:i_u].ravel() - xs[i]) ** 2.0 * ws.ravel() / c))", "                    (self.x[i_l:i_u].ravel() - xs[i]) ** 2.0 / max(1, i_u - i_l)))"),
+    ("C20", "seam-row-duplicated", "typhon/topography.py", "            inds_lat = np.logical_and(lat_min <= lats, lats < lat_max)\n            inds_lon = np.logical_and(lon_min <= lons, lons < lon_max)\n            inds_s", "            inds_lat = np.logical_and(lat_min <= lats, lats <= lat_max + SRTM30._dlat)\n            inds_lon = np.logical_and(lon_min <= lons, lons < lon_max)\n            inds_s"),
+    ("C20", "trunc-to-round", "typhon/topography.py", "        i_min = np.trunc((90 - lat_max) / SRTM30._dlat)", "        i_min = np.round((90 - lat_max) / SRTM30._dlat)"),
+    ("C20", "old-lat-arithmetic", "typhon/topography.py", "        i_min = np.trunc((90 - lat_max) / SRTM30._dlat)\n        i = (90 - lat_min) / SRTM30._dlat\n        i_max = np.trunc(i)\n        if not i_max < i:\n            i_max = i_max - 1", "        i_min = np.trunc((90 - lat_max) / SRTM30._dlat) - 1\n        i = (90 - lat_min) / SRTM30._dlat\n        i_max = np.trunc(i) - 1"),
+    ("C20", "dest-mask-closed", "typhon/topography.py", "            inds_lon = np.logical_and(lon_min_s <= lons_d, lons_d < lon_max_s)", "            inds_lon = np.logical_and(lon_min_s <= lons_d, lons_d <= lon_max_s + SRTM30._dlon)"),
+    ("C20", "tiles-touching-count", "typhon/topography.py", "    return (lat_min < lat_max) and (lon_min < lon_max)", "    return (lat_min <= lat_max) and (lon_min <= lon_max)"),
+    ("C20", "always-download", "typhon/topography.py", "        if not (os.path.exists(dem_file)):\n            SRTM30.download_tile(name)", "        if True:\n            SRTM30.download_tile(name)"),
+    ("C20", "lon-180-wrap", "typhon/topography.py", "        if lon_min >= 180:\n            lon_min -= 360", "        if lon_min > 180:\n            lon_min -= 360"),
+    ("C20", "jmax-aligned", "typhon/topography.py", "        if not j_max < j:\n            j_max = j_max - 1", "        if not j_max < j:\n            j_max = j_max"),
 ]
 
 
